@@ -1,10 +1,862 @@
 package main
 
+// Go -> Lean translator for small pure functions (DESIGN.md 2.1 (a2)).
+//
+// Part 1 (this file): entry point, package loading, Go types of the subset,
+// constant evaluation with types.  Part 2: tr_expr.go (expressions),
+// part 3: tr_stmt.go (statements, function header).
+//
+// The translator works on syntax only (go/ast, go/constant) and has its own
+// small type inference for the subset.  Anything it does not recognise makes
+// it return an error, which main.go turns into a failed extraction: it never
+// guesses.  The semantics of the emitted helper calls (Go.i64, Go.idx, …) is
+// defined in lean/PdfVerif/Model/TRGo.lean.
+
 import (
-	"errors"
+	"fmt"
 	"go/ast"
+	"go/constant"
+	"go/parser"
+	"go/token"
+	"os"
+	"path/filepath"
+	"sort"
+	"strconv"
+	"strings"
 )
 
+// ---------------------------------------------------------------- Go types of the subset
+
+type kind int
+
+const (
+	kBool      kind = iota
+	kUint           // bits 8,16,32,64
+	kInt            // bits 64 (int, int64) or 32 (int32, rune)
+	kStr            // string: read-only bytes
+	kSlice          // elem
+	kStruct         // name, fields
+	kErr            // error
+	kSink           // io.ByteWriter: append-only byte sink that never fails
+	kRuneASCII      // element of `range string`; only ==/!= against ASCII constants allowed
+	kTuple          // multi-value call result
+)
+
+type field struct {
+	name string
+	t    *gtype
+}
+
+type gtype struct {
+	k      kind
+	bits   int
+	elem   *gtype
+	name   string // Go name of a struct type
+	lean   string // Lean name of a struct type
+	fields []field
+	tuple  []*gtype
+}
+
+var (
+	tBool  = &gtype{k: kBool}
+	tU8    = &gtype{k: kUint, bits: 8}
+	tU16   = &gtype{k: kUint, bits: 16}
+	tU32   = &gtype{k: kUint, bits: 32}
+	tU64   = &gtype{k: kUint, bits: 64}
+	tInt   = &gtype{k: kInt, bits: 64}
+	tI32   = &gtype{k: kInt, bits: 32}
+	tStr   = &gtype{k: kStr}
+	tErr   = &gtype{k: kErr}
+	tSink  = &gtype{k: kSink}
+	tRuneA = &gtype{k: kRuneASCII}
+)
+
+func (t *gtype) String() string {
+	switch t.k {
+	case kBool:
+		return "bool"
+	case kUint:
+		return fmt.Sprintf("uint%d", t.bits)
+	case kInt:
+		return fmt.Sprintf("int%d", t.bits)
+	case kStr:
+		return "string"
+	case kSlice:
+		return "[]" + t.elem.String()
+	case kStruct:
+		return "struct " + t.name
+	case kErr:
+		return "error"
+	case kSink:
+		return "io.ByteWriter"
+	case kRuneASCII:
+		return "rune(range string)"
+	case kTuple:
+		var p []string
+		for _, x := range t.tuple {
+			p = append(p, x.String())
+		}
+		return "(" + strings.Join(p, ", ") + ")"
+	}
+	return "?"
+}
+
+func sameType(a, b *gtype) bool {
+	if a == nil || b == nil {
+		return false
+	}
+	if a.k != b.k {
+		return false
+	}
+	switch a.k {
+	case kUint, kInt:
+		return a.bits == b.bits
+	case kSlice:
+		return sameType(a.elem, b.elem)
+	case kStruct:
+		return a.lean == b.lean
+	}
+	return true
+}
+
+// leanType is the Lean type that represents t.
+func (t *gtype) leanType() string {
+	switch t.k {
+	case kBool:
+		return "Bool"
+	case kUint:
+		return fmt.Sprintf("UInt%d", t.bits)
+	case kInt:
+		return "Int"
+	case kStr:
+		return "List UInt8"
+	case kSlice:
+		return "List " + parenType(t.elem.leanType())
+	case kStruct:
+		return t.lean
+	case kErr:
+		return "Option String"
+	case kSink:
+		return "List UInt8"
+	case kRuneASCII:
+		return "UInt8"
+	case kTuple:
+		var p []string
+		for _, x := range t.tuple {
+			p = append(p, x.leanType())
+		}
+		return strings.Join(p, " × ")
+	}
+	return "?"
+}
+
+func parenType(s string) string {
+	if strings.ContainsAny(s, " ") {
+		return "(" + s + ")"
+	}
+	return s
+}
+
+// ---------------------------------------------------------------- packages
+
+type constDecl struct {
+	expr ast.Expr
+	typ  ast.Expr // may be nil
+	iota int64
+	file *ast.File
+}
+
+type pkgInfo struct {
+	dir     string
+	fset    *token.FileSet
+	files   []*ast.File
+	consts  map[string]*constDecl
+	vars    map[string]*ast.ValueSpec
+	types   map[string]*ast.TypeSpec
+	tfile   map[string]*ast.File
+	funcs   map[string]*ast.FuncDecl
+	ffile   map[string]*ast.File
+	imports map[*ast.File]map[string]string
+	root    string // repository root (directory of go.mod)
+	module  string // module path
+	// translation state
+	fns     map[string]*fnSig // translated functions of this package by Go name ("Recv.Name")
+	structs map[string]*gtype // struct types already emitted
+	cache   map[string]*cval  // evaluated package constants
+	busy    map[string]bool
+}
+
+type fnSig struct {
+	lean    string
+	params  []*gtype // without sinks; receiver first
+	results []*gtype // with the sink contents appended last if the function has a sink
+	partial bool     // generated in the Option monad (none = panic)
+}
+
+var pkgs = map[string]*pkgInfo{}
+
+func findRoot(dir string) (string, string, error) {
+	d := dir
+	for {
+		raw, err := os.ReadFile(filepath.Join(d, "go.mod"))
+		if err == nil {
+			for _, l := range strings.Split(string(raw), "\n") {
+				l = strings.TrimSpace(l)
+				if strings.HasPrefix(l, "module ") {
+					return d, strings.TrimSpace(strings.TrimPrefix(l, "module ")), nil
+				}
+			}
+			return "", "", fmt.Errorf("no module line in %s/go.mod", d)
+		}
+		nd := filepath.Dir(d)
+		if nd == d {
+			return "", "", fmt.Errorf("no go.mod above %s", dir)
+		}
+		d = nd
+	}
+}
+
+func loadPkg(dir string) (*pkgInfo, error) {
+	dir = filepath.Clean(dir)
+	if p, ok := pkgs[dir]; ok {
+		return p, nil
+	}
+	root, module, err := findRoot(dir)
+	if err != nil {
+		return nil, err
+	}
+	p := &pkgInfo{dir: dir, fset: token.NewFileSet(), consts: map[string]*constDecl{}, vars: map[string]*ast.ValueSpec{},
+		types: map[string]*ast.TypeSpec{}, tfile: map[string]*ast.File{}, funcs: map[string]*ast.FuncDecl{}, ffile: map[string]*ast.File{},
+		imports: map[*ast.File]map[string]string{}, root: root, module: module,
+		fns: map[string]*fnSig{}, structs: map[string]*gtype{}, cache: map[string]*cval{}, busy: map[string]bool{}}
+	ents, err := os.ReadDir(dir)
+	if err != nil {
+		return nil, err
+	}
+	var names []string
+	for _, ent := range ents {
+		n := ent.Name()
+		if ent.IsDir() || !strings.HasSuffix(n, ".go") || strings.HasSuffix(n, "_test.go") {
+			continue
+		}
+		names = append(names, n)
+	}
+	sort.Strings(names)
+	pkgName := ""
+	for _, n := range names {
+		f, err := parser.ParseFile(p.fset, filepath.Join(dir, n), nil, parser.SkipObjectResolution|parser.ParseComments)
+		if err != nil {
+			return nil, err
+		}
+		// skip files excluded by a build constraint we do not satisfy (verif shims, other OS)
+		if hasBuildTag(f) {
+			continue
+		}
+		if pkgName == "" {
+			pkgName = f.Name.Name
+		} else if f.Name.Name != pkgName {
+			continue
+		}
+		p.files = append(p.files, f)
+		imp := map[string]string{}
+		for _, is := range f.Imports {
+			path, _ := strconv.Unquote(is.Path.Value)
+			name := filepath.Base(path)
+			if is.Name != nil {
+				name = is.Name.Name
+			}
+			imp[name] = path
+		}
+		p.imports[f] = imp
+		for _, d := range f.Decls {
+			switch d := d.(type) {
+			case *ast.FuncDecl:
+				name := d.Name.Name
+				if d.Recv != nil && len(d.Recv.List) == 1 {
+					name = recvName(d.Recv.List[0].Type) + "." + name
+				}
+				p.funcs[name] = d
+				p.ffile[name] = f
+			case *ast.GenDecl:
+				switch d.Tok {
+				case token.CONST:
+					var lastV []ast.Expr
+					var lastT ast.Expr
+					for i, sp := range d.Specs {
+						vs := sp.(*ast.ValueSpec)
+						vals, typ := vs.Values, vs.Type
+						if len(vals) == 0 {
+							vals, typ = lastV, lastT
+						} else {
+							lastV, lastT = vals, typ
+						}
+						for j, nm := range vs.Names {
+							if j < len(vals) && nm.Name != "_" {
+								p.consts[nm.Name] = &constDecl{vals[j], typ, int64(i), f}
+							}
+						}
+					}
+				case token.VAR:
+					for _, sp := range d.Specs {
+						vs := sp.(*ast.ValueSpec)
+						for _, nm := range vs.Names {
+							p.vars[nm.Name] = vs
+						}
+					}
+				case token.TYPE:
+					for _, sp := range d.Specs {
+						ts := sp.(*ast.TypeSpec)
+						p.types[ts.Name.Name] = ts
+						p.tfile[ts.Name.Name] = f
+					}
+				}
+			}
+		}
+	}
+	pkgs[dir] = p
+	return p, nil
+}
+
+func hasBuildTag(f *ast.File) bool {
+	for _, cg := range f.Comments {
+		if cg.Pos() > f.Package {
+			break
+		}
+		for _, c := range cg.List {
+			if strings.HasPrefix(c.Text, "//go:build") {
+				return true
+			}
+		}
+	}
+	return false
+}
+
+// importedPkg resolves the package name used in file f of p.
+func (p *pkgInfo) importedPkg(f *ast.File, name string) (*pkgInfo, string, error) {
+	path, ok := p.imports[f][name]
+	if !ok {
+		return nil, "", fmt.Errorf("%s is not an imported package", name)
+	}
+	if path == p.module || strings.HasPrefix(path, p.module+"/") {
+		rel := strings.TrimPrefix(strings.TrimPrefix(path, p.module), "/")
+		q, err := loadPkg(filepath.Join(p.root, rel))
+		return q, path, err
+	}
+	return nil, path, nil // outside the module (standard library …)
+}
+
+// ---------------------------------------------------------------- type resolution
+
+type scopeCtx struct {
+	p *pkgInfo
+	f *ast.File
+}
+
+var basicTypes = map[string]*gtype{
+	"bool": tBool, "byte": tU8, "uint8": tU8, "uint16": tU16, "uint32": tU32, "uint64": tU64, "uint": tU64,
+	"int": tInt, "int64": tInt, "int32": tI32, "rune": tI32, "string": tStr, "error": tErr,
+}
+
+func (c scopeCtx) resolveType(x ast.Expr, prefix string) (*gtype, error) {
+	switch x := x.(type) {
+	case *ast.Ident:
+		if _, shadow := c.p.types[x.Name]; !shadow {
+			if t, ok := basicTypes[x.Name]; ok {
+				return t, nil
+			}
+		}
+		ts, ok := c.p.types[x.Name]
+		if !ok {
+			return nil, fmt.Errorf("unknown type %s", x.Name)
+		}
+		if ts.TypeParams != nil {
+			return nil, fmt.Errorf("generic type %s", x.Name)
+		}
+		cc := scopeCtx{c.p, c.p.tfile[x.Name]}
+		if st, ok := ts.Type.(*ast.StructType); ok {
+			if t, ok := c.p.structs[x.Name]; ok {
+				return t, nil
+			}
+			t := &gtype{k: kStruct, name: x.Name, lean: prefix + x.Name}
+			for _, fl := range st.Fields.List {
+				if len(fl.Names) == 0 {
+					return nil, fmt.Errorf("struct %s: embedded field", x.Name)
+				}
+				ft, err := cc.resolveType(fl.Type, prefix)
+				if err != nil {
+					return nil, fmt.Errorf("struct %s: field %s: %v", x.Name, fl.Names[0].Name, err)
+				}
+				if ft.k == kSink || ft.k == kErr {
+					return nil, fmt.Errorf("struct %s: field of type %s", x.Name, ft)
+				}
+				for _, nm := range fl.Names {
+					t.fields = append(t.fields, field{nm.Name, ft})
+				}
+			}
+			c.p.structs[x.Name] = t
+			pendingStructs = append(pendingStructs, t)
+			return t, nil
+		}
+		u, err := cc.resolveType(ts.Type, prefix)
+		if err != nil {
+			return nil, err
+		}
+		if u.k == kStruct {
+			return u, nil
+		}
+		cp := *u
+		cp.name = x.Name // named non-struct type: same representation, the name selects methods
+		return &cp, nil
+	case *ast.ParenExpr:
+		return c.resolveType(x.X, prefix)
+	case *ast.StarExpr:
+		t, err := c.resolveType(x.X, prefix)
+		if err != nil {
+			return nil, err
+		}
+		if t.k != kStruct {
+			return nil, fmt.Errorf("pointer to non-struct type")
+		}
+		return t, nil // read-only use of *T is treated as T (a nil receiver is outside the model)
+	case *ast.ArrayType:
+		if x.Len != nil {
+			return nil, fmt.Errorf("fixed-size array type")
+		}
+		et, err := c.resolveType(x.Elt, prefix)
+		if err != nil {
+			return nil, err
+		}
+		if et.k == kSink || et.k == kErr {
+			return nil, fmt.Errorf("slice of %s", et)
+		}
+		return &gtype{k: kSlice, elem: et}, nil
+	case *ast.SelectorExpr:
+		id, ok := x.X.(*ast.Ident)
+		if !ok {
+			return nil, fmt.Errorf("unsupported type expression")
+		}
+		q, path, err := c.p.importedPkg(c.f, id.Name)
+		if err != nil {
+			return nil, err
+		}
+		if q == nil {
+			if path == "io" && x.Sel.Name == "ByteWriter" {
+				return tSink, nil
+			}
+			return nil, fmt.Errorf("type %s.%s outside the subset", path, x.Sel.Name)
+		}
+		ts, ok := q.types[x.Sel.Name]
+		if !ok {
+			return nil, fmt.Errorf("unknown type %s.%s", id.Name, x.Sel.Name)
+		}
+		if _, isStruct := ts.Type.(*ast.StructType); isStruct {
+			return nil, fmt.Errorf("struct type %s.%s of another package", id.Name, x.Sel.Name)
+		}
+		return scopeCtx{q, q.tfile[x.Sel.Name]}.resolveType(ts.Type, prefix)
+	}
+	return nil, fmt.Errorf("type expression %T outside the subset", x)
+}
+
+// isTypeName reports whether the identifier names a type (for conversions).
+func (c scopeCtx) isTypeName(name string) bool {
+	if _, ok := c.p.types[name]; ok {
+		return true
+	}
+	_, ok := basicTypes[name]
+	return ok
+}
+
+var pendingStructs []*gtype
+
+func structDecl(t *gtype) string {
+	var sb strings.Builder
+	fmt.Fprintf(&sb, "/-- Go struct `%s` (fields in source order) -/\nstructure %s where\n", t.name, t.lean)
+	for _, f := range t.fields {
+		fmt.Fprintf(&sb, "  %s : %s\n", leanIdent(f.name), f.t.leanType())
+	}
+	sb.WriteString("deriving DecidableEq, Repr\n\n")
+	return sb.String()
+}
+
+// ---------------------------------------------------------------- constants
+
+// cval is a Go constant: its exact value and its type (nil = untyped).
+type cval struct {
+	v constant.Value
+	t *gtype
+}
+
+var mathConsts = map[string]string{
+	"MaxInt8": "127", "MinInt8": "-128", "MaxInt16": "32767", "MinInt16": "-32768",
+	"MaxInt32": "2147483647", "MinInt32": "-2147483648",
+	"MaxInt64": "9223372036854775807", "MinInt64": "-9223372036854775808",
+	"MaxInt": "9223372036854775807", "MinInt": "-9223372036854775808",
+	"MaxUint8": "255", "MaxUint16": "65535", "MaxUint32": "4294967295",
+	"MaxUint64": "18446744073709551615", "MaxUint": "18446744073709551615",
+}
+
+func (p *pkgInfo) pkgConst(name string, prefix string) (*cval, error) {
+	if c, ok := p.cache[name]; ok {
+		return c, nil
+	}
+	d, ok := p.consts[name]
+	if !ok {
+		return nil, fmt.Errorf("%s is not a constant", name)
+	}
+	if p.busy[name] {
+		return nil, fmt.Errorf("constant cycle at %s", name)
+	}
+	p.busy[name] = true
+	defer delete(p.busy, name)
+	ctx := scopeCtx{p, d.file}
+	c, err := ctx.evalConst(d.expr, d.iota, nil, prefix)
+	if err != nil {
+		return nil, fmt.Errorf("constant %s: %v", name, err)
+	}
+	if d.typ != nil {
+		t, err := ctx.resolveType(d.typ, prefix)
+		if err != nil {
+			return nil, err
+		}
+		c, err = convertConst(c, t)
+		if err != nil {
+			return nil, fmt.Errorf("constant %s: %v", name, err)
+		}
+	}
+	p.cache[name] = c
+	return c, nil
+}
+
+func intRange(t *gtype) (lo, hi constant.Value) {
+	one := constant.MakeInt64(1)
+	switch t.k {
+	case kUint:
+		return constant.MakeInt64(0), constant.BinaryOp(constant.Shift(one, token.SHL, uint(t.bits)), token.SUB, one)
+	case kInt:
+		h := constant.Shift(one, token.SHL, uint(t.bits-1))
+		return constant.UnaryOp(token.SUB, h, 0), constant.BinaryOp(h, token.SUB, one)
+	}
+	return nil, nil
+}
+
+func convertConst(c *cval, t *gtype) (*cval, error) {
+	switch t.k {
+	case kBool:
+		if c.v.Kind() != constant.Bool {
+			return nil, fmt.Errorf("constant %v is not a bool", c.v)
+		}
+		return &cval{c.v, t}, nil
+	case kUint, kInt:
+		v := constant.ToInt(c.v)
+		if v.Kind() != constant.Int {
+			return nil, fmt.Errorf("constant %v is not an integer", c.v)
+		}
+		lo, hi := intRange(t)
+		if constant.Compare(v, token.LSS, lo) || constant.Compare(v, token.GTR, hi) {
+			return nil, fmt.Errorf("constant %v overflows %s", v, t)
+		}
+		return &cval{v, t}, nil
+	case kStr:
+		if c.v.Kind() != constant.String {
+			return nil, fmt.Errorf("constant %v is not a string", c.v)
+		}
+		return &cval{c.v, t}, nil
+	}
+	return nil, fmt.Errorf("constant of type %s", t)
+}
+
+// evalConst evaluates a constant expression; locals are function-local constants.
+// It returns an error if x is not a constant expression of the subset.
+func (c scopeCtx) evalConst(x ast.Expr, iota int64, locals func(string) (*cval, bool), prefix string) (*cval, error) {
+	switch x := x.(type) {
+	case *ast.BasicLit:
+		switch x.Kind {
+		case token.INT, token.CHAR, token.STRING:
+			v := constant.MakeFromLiteral(x.Value, x.Kind, 0)
+			if v.Kind() == constant.Unknown {
+				return nil, fmt.Errorf("bad literal %s", x.Value)
+			}
+			return &cval{v, nil}, nil
+		}
+		return nil, fmt.Errorf("literal %s outside the subset (floats are not supported)", x.Value)
+	case *ast.ParenExpr:
+		return c.evalConst(x.X, iota, locals, prefix)
+	case *ast.Ident:
+		if locals != nil {
+			if v, ok := locals(x.Name); ok {
+				if v == nil {
+					return nil, fmt.Errorf("%s is a variable", x.Name)
+				}
+				return v, nil
+			}
+		}
+		if _, ok := c.p.consts[x.Name]; ok {
+			return c.p.pkgConst(x.Name, prefix)
+		}
+		switch x.Name {
+		case "iota":
+			if iota < 0 {
+				return nil, fmt.Errorf("iota outside a constant declaration")
+			}
+			return &cval{constant.MakeInt64(iota), nil}, nil
+		case "true":
+			return &cval{constant.MakeBool(true), nil}, nil
+		case "false":
+			return &cval{constant.MakeBool(false), nil}, nil
+		}
+		return nil, fmt.Errorf("%s is not a constant", x.Name)
+	case *ast.SelectorExpr:
+		id, ok := x.X.(*ast.Ident)
+		if !ok {
+			return nil, fmt.Errorf("not a constant")
+		}
+		if locals != nil {
+			if _, isLocal := locals(id.Name); isLocal {
+				return nil, fmt.Errorf("not a constant")
+			}
+		}
+		q, path, err := c.p.importedPkg(c.f, id.Name)
+		if err != nil {
+			return nil, fmt.Errorf("not a constant")
+		}
+		if q == nil {
+			if path == "math" {
+				if s, ok := mathConsts[x.Sel.Name]; ok {
+					return &cval{constant.MakeFromLiteral(s, token.INT, 0), nil}, nil
+				}
+			}
+			return nil, fmt.Errorf("%s.%s: not a known constant", path, x.Sel.Name)
+		}
+		if _, ok := q.consts[x.Sel.Name]; !ok {
+			return nil, fmt.Errorf("%s.%s is not a constant", id.Name, x.Sel.Name)
+		}
+		return q.pkgConst(x.Sel.Name, prefix)
+	case *ast.UnaryExpr:
+		a, err := c.evalConst(x.X, iota, locals, prefix)
+		if err != nil {
+			return nil, err
+		}
+		switch x.Op {
+		case token.ADD:
+			return a, nil
+		case token.SUB:
+			return checkRange(&cval{constant.UnaryOp(token.SUB, a.v, 0), a.t})
+		case token.NOT:
+			if a.v.Kind() != constant.Bool {
+				return nil, fmt.Errorf("! on non-bool constant")
+			}
+			return &cval{constant.UnaryOp(token.NOT, a.v, 0), a.t}, nil
+		case token.XOR:
+			if a.v.Kind() != constant.Int {
+				return nil, fmt.Errorf("^ on non-integer constant")
+			}
+			if a.t != nil && a.t.k == kUint {
+				return &cval{constant.UnaryOp(token.XOR, a.v, uint(a.t.bits)), a.t}, nil
+			}
+			return &cval{constant.UnaryOp(token.XOR, a.v, 0), a.t}, nil
+		}
+		return nil, fmt.Errorf("unary %s in constant", x.Op)
+	case *ast.BinaryExpr:
+		a, err := c.evalConst(x.X, iota, locals, prefix)
+		if err != nil {
+			return nil, err
+		}
+		b, err := c.evalConst(x.Y, iota, locals, prefix)
+		if err != nil {
+			return nil, err
+		}
+		return foldBinary(x.Op, a, b)
+	case *ast.CallExpr:
+		if len(x.Args) == 1 && x.Ellipsis == token.NoPos {
+			if isType, t := c.typeExpr(x.Fun, locals, prefix); isType {
+				if t == nil {
+					return nil, fmt.Errorf("conversion to a type outside the subset")
+				}
+				a, err := c.evalConst(x.Args[0], iota, locals, prefix)
+				if err != nil {
+					return nil, err
+				}
+				return convertConst(a, t)
+			}
+		}
+		return nil, fmt.Errorf("call is not a constant")
+	}
+	return nil, fmt.Errorf("not a constant")
+}
+
+// typeExpr reports whether x denotes a type; t is nil if the type is outside the subset.
+func (c scopeCtx) typeExpr(x ast.Expr, locals func(string) (*cval, bool), prefix string) (bool, *gtype) {
+	switch x := x.(type) {
+	case *ast.Ident:
+		if locals != nil {
+			if _, isLocal := locals(x.Name); isLocal {
+				return false, nil
+			}
+		}
+		if _, isFunc := c.p.funcs[x.Name]; isFunc {
+			return false, nil
+		}
+		if !c.isTypeName(x.Name) {
+			if x.Name == "float64" || x.Name == "float32" || x.Name == "uintptr" || x.Name == "int8" || x.Name == "int16" {
+				return true, nil
+			}
+			return false, nil
+		}
+		t, err := c.resolveType(x, prefix)
+		if err != nil {
+			return true, nil
+		}
+		return true, t
+	case *ast.ParenExpr:
+		return c.typeExpr(x.X, locals, prefix)
+	case *ast.ArrayType:
+		t, err := c.resolveType(x, prefix)
+		if err != nil {
+			return true, nil
+		}
+		return true, t
+	case *ast.SelectorExpr:
+		id, ok := x.X.(*ast.Ident)
+		if !ok {
+			return false, nil
+		}
+		if locals != nil {
+			if _, isLocal := locals(id.Name); isLocal {
+				return false, nil
+			}
+		}
+		q, _, err := c.p.importedPkg(c.f, id.Name)
+		if err != nil || q == nil {
+			return false, nil
+		}
+		if _, ok := q.types[x.Sel.Name]; !ok {
+			return false, nil
+		}
+		t, err := c.resolveType(x, prefix)
+		if err != nil {
+			return true, nil
+		}
+		return true, t
+	}
+	return false, nil
+}
+
+func checkRange(c *cval) (*cval, error) {
+	if c.t == nil || (c.t.k != kUint && c.t.k != kInt) {
+		return c, nil
+	}
+	return convertConst(c, c.t)
+}
+
+// foldBinary applies Go's rules for constant binary expressions.
+func foldBinary(op token.Token, a, b *cval) (*cval, error) {
+	switch op {
+	case token.SHL, token.SHR:
+		if a.v.Kind() != constant.Int {
+			return nil, fmt.Errorf("shift of non-integer constant")
+		}
+		s, ok := constant.Uint64Val(constant.ToInt(b.v))
+		if !ok || s > 4096 {
+			return nil, fmt.Errorf("bad constant shift count %v", b.v)
+		}
+		return checkRange(&cval{constant.Shift(a.v, op, uint(s)), a.t})
+	}
+	t := a.t
+	if t == nil {
+		t = b.t
+	} else if b.t != nil && !sameType(a.t, b.t) {
+		return nil, fmt.Errorf("mismatched constant types %s and %s", a.t, b.t)
+	}
+	switch op {
+	case token.EQL, token.NEQ, token.LSS, token.LEQ, token.GTR, token.GEQ:
+		if a.v.Kind() != b.v.Kind() {
+			return nil, fmt.Errorf("comparison of constants of different kinds")
+		}
+		return &cval{constant.MakeBool(constant.Compare(a.v, op, b.v)), nil}, nil
+	case token.LAND, token.LOR:
+		if a.v.Kind() != constant.Bool || b.v.Kind() != constant.Bool {
+			return nil, fmt.Errorf("logical operator on non-bool constants")
+		}
+		return &cval{constant.BinaryOp(a.v, op, b.v), t}, nil
+	case token.ADD:
+		if a.v.Kind() == constant.String && b.v.Kind() == constant.String {
+			return &cval{constant.BinaryOp(a.v, op, b.v), t}, nil
+		}
+	}
+	if a.v.Kind() != constant.Int || b.v.Kind() != constant.Int {
+		return nil, fmt.Errorf("arithmetic on non-integer constants (floats are outside the subset)")
+	}
+	switch op {
+	case token.ADD, token.SUB, token.MUL, token.AND, token.OR, token.XOR, token.AND_NOT:
+		return checkRange(&cval{constant.BinaryOp(a.v, op, b.v), t})
+	case token.QUO:
+		if constant.Sign(b.v) == 0 {
+			return nil, fmt.Errorf("constant division by zero")
+		}
+		return checkRange(&cval{constant.BinaryOp(a.v, token.QUO_ASSIGN, b.v), t})
+	case token.REM:
+		if constant.Sign(b.v) == 0 {
+			return nil, fmt.Errorf("constant division by zero")
+		}
+		return checkRange(&cval{constant.BinaryOp(a.v, token.REM, b.v), t})
+	}
+	return nil, fmt.Errorf("operator %s in constant", op)
+}
+
+// ---------------------------------------------------------------- entry point
+
 func translateImpl(e *env, fc FileCfg, fd *ast.FuncDecl) (string, error) {
-	return "", errors.New("translator not built yet")
+	path := e.fset.Position(fd.Pos()).Filename
+	p, err := loadPkg(filepath.Dir(path))
+	if err != nil {
+		return "", err
+	}
+	name := fd.Name.Name
+	if fd.Recv != nil && len(fd.Recv.List) == 1 {
+		name = recvName(fd.Recv.List[0].Type) + "." + name
+	}
+	myfd, ok := p.funcs[name]
+	if !ok {
+		return "", fmt.Errorf("function %s not found in package %s", name, p.dir)
+	}
+	if filepath.Base(p.fset.Position(myfd.Pos()).Filename) != filepath.Base(path) {
+		return "", fmt.Errorf("function %s is declared in another file of the package", name)
+	}
+	t := &tr{p: p, f: p.ffile[name], prefix: fc.Prefix, goName: name, fd: myfd}
+	pendingStructs = nil
+	src, err := t.function()
+	if err != nil {
+		pos := ""
+		if t.errPos.IsValid() {
+			pos = p.fset.Position(t.errPos).String() + ": "
+		}
+		return "", fmt.Errorf("%s%v", pos, err)
+	}
+	var sb strings.Builder
+	for _, st := range pendingStructs {
+		sb.WriteString(structDecl(st))
+	}
+	pendingStructs = nil
+	sb.WriteString(src)
+	return sb.String(), nil
+}
+
+var leanReserved = map[string]bool{}
+
+func init() {
+	for _, w := range strings.Fields(`at from have show end fun open in then else do match with let mut if for return instance def
+		theorem structure class where deriving namespace section variable universe local prefix infix infixl infixr notation macro
+		syntax import export Type Prop Sort by using this example abbrev inductive mutual private protected partial unsafe
+		extends calc suffices obtain nomatch nofun try catch finally unless break continue then min max some none true false
+		pure bind not and or id fst snd init` + " ") {
+		leanReserved[w] = true
+	}
+}
+
+// leanIdent makes a Go identifier usable as a Lean identifier.
+func leanIdent(s string) string {
+	if leanReserved[s] {
+		return s + "'"
+	}
+	return s
 }
